@@ -376,6 +376,32 @@ def examine(case):
     cls = rng.choice(list(CLASSES))
     src = "%s.create_table('nt')%s.as_select(Query.from_(T('s')).select('a', 'b').where(F('a') > 1))" % (
         CLASSES[cls], rng.choice(["", ".temporary()", ".if_not_exists()"]) if cls != "vertica" else rng.choice(["", ".temporary()", ".temporary().preserve_rows()"]))
+    if rng.random() < 0.6:
+        # any SELECT of any query class (hints, modifiers, TOP, joins, sub-queries …) as the AS SELECT body: the statement is
+        # the table head followed by exactly that select, rendered in the CREATE statement's context, in parentheses
+        from harness import genq
+        qg = genq.QG(rng, max_depth=1)
+        v = qg.select()
+        flags = rng.choice(["", ".temporary()", ".if_not_exists()"]) if cls != "vertica" else rng.choice(["", ".temporary()", ".temporary().preserve_rows()"])
+        script = qg.script() + "\nhead_ = %s.create_table('nt')%s\nb_ = head_.as_select(%s)" % (CLASSES[cls], flags, v)
+        case["recipe"] = script
+        env = ns.ex(script)
+        b, sel = env["b_"], env[v]
+        text = str(b)
+        res.key = struct_hash(script)
+        res.tags = ["kind=as_select", "select=" + type(sel).__name__]
+        res.nontrivial = True
+        kw = {"quote_char": b.QUOTE_CHAR, "secondary_quote_char": b.SECONDARY_QUOTE_CHAR, "dialect": b.dialect}
+        inner = sel.get_sql(**kw)
+        headtext = b._create_table_sql(**kw)
+        want = headtext + (" ON COMMIT PRESERVE ROWS" if getattr(b, "_preserve_rows", False) else "") + " AS (" + inner + ")"
+        if text != want:
+            F("as-select", "AS SELECT renders %s, the table head and the select give %s" % (text, want))
+        try:
+            res.requests.append(({"op": "create", "ctx": describe.d_ctx({}), "d": d_create(b)}, {"sql": text}, "str(create as select)"))
+        except Unsupported as ex:
+            res.skipped = str(ex)[:40]
+        return res
     case["recipe"] = src
     b = ns.ev(src)
     text = str(b)
